@@ -201,6 +201,23 @@ fn circle_case(case: &Case, l: &mut Local) {
             l.check("circle fit recovers centre and radius from exact samples", "", e <= 1e-6 * r, mk, || format!("centre ({},{}) r {}: error {:e}", cx, cy, r, e));
         }
     }
+    if case.d % 5 == 1 {
+        // the smallest sample sets that determine a circle: three, four and five exact samples
+        for k in [3usize, 4, 5] {
+            l.eval();
+            let few: Vec<Point2> = (0..k).map(|i| { let a = 0.4 + i as f64 * 1.9; Point2::new(cx + r * a.cos(), cy + r * a.sin()) }).collect();
+            l.bucket("minimal sample set");
+            match guarded(|| Circle2::fitting_circle(&few, &guess, mode).map_err(|e| e.to_string())) {
+                Ok(Ok(c)) => {
+                    let e = d2(&c.center, &Point2::new(cx, cy)).max((c.r() - r).abs());
+                    l.check("circle fit recovers centre and radius from exact samples", "minimal sample set", e <= 1e-6 * r, mk, || format!("{} samples: error {:e}", k, e));
+                }
+                other => {
+                    l.check("circle fit succeeds from a nearby guess", "minimal sample set", false, mk, || format!("{} samples: {:?}", k, other.map(|r| r.map(|c| c.r()))));
+                }
+            }
+        }
+    }
     if case.b % 4 == 3 && case.d % 5 == 0 {
         // samples whose distances from the centre are exactly equal in floating point (integer Pythagorean
         // points) and a guess that is concentric with them: all residuals coincide, their spread is exactly zero
@@ -514,7 +531,7 @@ pub fn run(tier: Tier) -> i32 {
     let mut cx = Ctx::new("C09", tier, "exploration");
     cx.rule = "polynomials with K = 2..6 coefficients: coefficient vectors from {-2,-1,0,1,3}^K (sub-sampled deterministically for K >= 5 in the quick tier) x 5 abscissa sets (asymmetric, one-sided, clustered, offset, integer) x sizes K, K+1, K+3 x 5 weight patterns; arbitrary ordinates {-1,0,2}^(K+2) for the orthogonality clause; circles: 3 centres x 3 radii x 4 arc extents x 3 starts x 3 counts x 5 guesses x 2 modes; all set_params histories of length <= 3 over a 5-vector alphabet of the private CircleFit problem (hook H4) compared with a fresh problem; every ordered triple of the 4x4 lattice at 3 scales; seeded RANSAC on 36 contaminated sets. distinct = distinct cases".into();
     cx.bounds = json!({"K": [2, 6], "coefficient_alphabet": COEF, "abscissa_sets": xsets().len(), "circle_histories_max_len": 3});
-    cx.require(&["abscissae with a non-zero moment of order K", "abscissae with a vanishing moment of order K", "weighted", "unweighted", "arbitrary data", "full circle", "partial arc", "perturbed samples", "set_params history", "collinear triple", "non-collinear triple", "triple with coordinates below 0.01", "contaminated circle", "contaminated circle with radius limits", "exactly equidistant samples, concentric guess"]);
+    cx.require(&["abscissae with a non-zero moment of order K", "abscissae with a vanishing moment of order K", "weighted", "unweighted", "arbitrary data", "full circle", "partial arc", "perturbed samples", "set_params history", "collinear triple", "non-collinear triple", "triple with coordinates below 0.01", "contaminated circle", "contaminated circle with radius limits", "exactly equidistant samples, concentric guess", "minimal sample set"]);
     cx.assume("recovery tolerance 1e5 * cond(M) * eps * |c|_inf (the routine inverts the normal matrix explicitly); instances with cond > 1e8 are skipped and counted");
     let cs = cases(tier);
     let l = sweep(&cs, judge);
